@@ -1,4 +1,5 @@
 import Goyang.Model.Pipeline
+import Goyang.Spec.ConfigNs
 /-
 Driver of property C12: the resolver model like `drv_res`, but the dump also holds the trees of
 the submodules (`ToEntry(ms.SubModules[x])` on the Go side), labelled `sub:<full name>`: content
@@ -6,6 +7,12 @@ written in a submodule must report the namespace and the name of the module it b
 when it is reached through the submodule's own tree.
   process <ignoreCircular 0/1> <ignoreNotSupported 0/1> <files in wire format>
       -> `outsideModel <why>` | dump of the module trees ` ; ` dump of the submodule trees
+         ` ; ` one record `Q <namespace hex> <module name hex | !>` per direct
+         `FindModuleByNamespace` question (only when Process reported no errors)
+The questions are derived from the declared namespaces in the same way on both sides
+(harness/cmd/corr-c12 `nsQueries`): every declared namespace and near-twin spellings of it that
+need not be declared (ASCII upper / lower case, a trailing slash or blank added or removed,
+K/k <-> KELVIN SIGN, %2F <-> %2f <-> /).
 -/
 open Goyang Goyang.Proto Goyang.Model
 
@@ -18,6 +25,27 @@ def dumpSubs (o : Outcome) : List String :=
     | some root => dumpTree o.reg o.forest ("sub:" ++ m.fullName) root m.seq (entryDepth root + 1) [] root
     | none => [s!"N {hexS ("sub:" ++ m.fullName)} missing"]).flatten
 
+def kelvin : String := String.singleton (Char.ofNat 0x212A)
+
+/-- Near-twin spellings of a namespace, the namespace itself first. -/
+def nsVariants (ns : String) : List String :=
+  [ ns, ns.map Char.toUpper, ns.map Char.toLower, ns ++ "/", ns ++ " ",
+    (if ns.endsWith "/" || ns.endsWith " " then String.ofList ns.toList.dropLast else ns),
+    (ns.replace "K" kelvin).replace "k" kelvin, ns.replace kelvin "K", ns.replace kelvin "k",
+    ns.replace "%2F" "%2f", ns.replace "%2f" "%2F", (ns.replace "%2F" "/").replace "%2f" "/", ns.replace "/" "%2F" ]
+
+/-- The direct questions for a registry: variants of every declared namespace (in byte order of
+the namespaces), without repetitions. -/
+def nsQueries (reg : Registry) : List String :=
+  let declared := (sortBy (fun (a b : String) => a < b)
+    (reg.distinctModules.map fun m => (m.stmt.argOf? "namespace").getD "")).eraseDups
+  (declared.map nsVariants).flatten.eraseDups
+
+def dumpQueries (o : Outcome) : List String :=
+  if !o.errors.isEmpty then [] else
+  (nsQueries o.reg).map fun q =>
+    "Q " ++ hexS q ++ " " ++ (match Spec.ConfigNs.findByNamespace o.reg q with | some n => hexS n | none => "!")
+
 def handle : List String → String
   | "process" :: ic :: ins :: rest =>
     match Wire.decFiles (rest.length + 1) rest with
@@ -26,8 +54,8 @@ def handle : List String → String
       match processFiles opts files with
       | .error why => "outsideModel " ++ why
       | .ok o =>
-        let subs := dumpSubs o
-        if subs.isEmpty then dumpOutcome o else dumpOutcome o ++ " ; " ++ " ; ".intercalate subs
+        let extra := dumpSubs o ++ dumpQueries o
+        if extra.isEmpty then dumpOutcome o else dumpOutcome o ++ " ; " ++ " ; ".intercalate extra
     | _ => "outsideModel undecodable"
   | _ => "bad-op"
 
